@@ -15,6 +15,7 @@ mod polyops;
 mod c01;
 mod c02;
 mod c11;
+mod c09;
 mod c12;
 mod c18;
 mod c15;
@@ -33,6 +34,7 @@ fn table(prop: &str) -> Option<(GenFn, RunFn)> {
         "C01" => Some((c01::generate, c01::run)),
         "C02" => Some((c02::generate, c02::run)),
         "C11" => Some((c11::generate, c11::run)),
+        "C09" => Some((c09::generate, c09::run)),
         "C12" => Some((c12::generate, c12::run)),
         "C18" => Some((c18::generate, c18::run)),
         "C15" => Some((c15::generate, c15::run)),
